@@ -592,6 +592,25 @@ func instDyn(t *rapid.T, ty spec.T) spec.T {
 	return ty
 }
 
+// farLens are upper length bounds far above the true length: powers of two
+// whose products overflow 64 bits, and the limits of the narrower integers.
+var farLens = []int{16, 255, 256, 1024, 65535, 65536, 1 << 31, 1 << 32, 1<<62 + 1}
+
+// FarLen draws one of the far upper length bounds.
+func FarLen(t *rapid.T) int { return rapid.SampledFrom(farLens).Draw(t, "farlen") }
+
+// upperLen draws an upper length bound for a collection of n members: at or
+// just above n, or (about one time in twenty) far above it.
+func upperLen(t *rapid.T, n int) int {
+	if rapid.IntRange(0, 9).Draw(t, "farhi") == 5 {
+		if far := rapid.SampledFrom(farLens).Draw(t, "far"); far >= n {
+			return far
+		}
+		return n
+	}
+	return n + rapid.IntRange(0, 2).Draw(t, "hi")
+}
+
 // AnyValue draws a type and then a value of it.
 func AnyValue(to TypeOpts, vo ValOpts) *rapid.Generator[spec.V] {
 	return rapid.Custom(func(t *rapid.T) spec.V {
@@ -753,7 +772,7 @@ func abstractOf(t *rapid.T, v spec.V, allowDyn bool, kinds *[]string) spec.V {
 				add("minlen")
 			}
 			if rapid.Bool().Draw(t, "maxlen") {
-				hi := n + rapid.IntRange(0, 2).Draw(t, "hi")
+				hi := upperLen(t, n)
 				r.MaxLen = &hi
 				add("maxlen")
 			}
@@ -764,7 +783,7 @@ func abstractOf(t *rapid.T, v spec.V, allowDyn bool, kinds *[]string) spec.V {
 				add("minlen")
 			}
 			if rapid.Bool().Draw(t, "maxlen") {
-				hi := n + rapid.IntRange(0, 2).Draw(t, "hi")
+				hi := upperLen(t, n)
 				r.MaxLen = &hi
 				add("maxlen")
 			}
